@@ -16,6 +16,9 @@ mod utils;
 #[cfg(test)]
 mod tests;
 
+#[cfg(feature = "verif-hooks")]
+pub mod verif_hooks;
+
 // Public re-exports
 // TODO: make opening_hours.rs lighter and less spaghetty
 pub use crate::context::{Context, ContextHolidays};
